@@ -1103,6 +1103,13 @@ func (fc *FnCtx) applyAnchored(st *State, c *Clause, i int, kind, name string, o
 
 func (fc *FnCtx) setGhost(st *State, name string, v Term) {
 	gv := fc.lookupGhostVar(fc.contract.PkgPath, name)
+	if gv == nil && strings.Contains(name, ".") {
+		// pkg.name: a ghost variable declared in an imported package's contract file
+		if gp, gn := resolveGhostName(fc.prog, fc.contract.PkgPath, name); gp != "" {
+			gv = fc.lookupGhostVar(gp, gn)
+			name = gn
+		}
+	}
 	if gv == nil {
 		fc.fail("ghost assignment to undeclared ghost var %s", name)
 	}
